@@ -510,9 +510,14 @@ def r5_relative_location(ctx):
 
 
 def r4_wrappers(ctx):
-    from .c06 import wrapper_table_check
-    wrapper_table_check(ctx, "C01.R4", only={"sequence_pos_to_feature", "feature_pos_to_sequence",
-                                             "sequence_interval_to_feature", "feature_interval_to_sequence"})
+    """feature-level wrappers: decided by interpreting every `<src>_(pos|interval)_to_<dst>` method of a feature over its
+    whole small domain on parent-less and offset-chunk features (C06.RW kernel); the structural wiring table then only adds
+    the all-inputs argument (strengthening, never alarms)"""
+    from .c06 import rw_wrappers, wrapper_table_check
+    rw_wrappers(ctx, "C01.R4", classes=("FeatureInterval",))
+    ctx.r.soften("C01.R4s")
+    wrapper_table_check(ctx, "C01.R4s", only={"sequence_pos_to_feature", "feature_pos_to_sequence",
+                                              "sequence_interval_to_feature", "feature_interval_to_sequence"})
 
 
 RULES = [
